@@ -207,38 +207,98 @@ def self_attr_value_texts(repo, fi: FunctionInfo, attr: str) -> List[Tuple[ast.s
     return out
 
 
-def guarded_values(repo, fi: FunctionInfo, e: ast.AST, at: ast.AST, conds=frozenset(), depth: int = 0):
+def guarded_values(repo, fi: FunctionInfo, e: ast.AST, at: ast.AST, conds=frozenset()):
+    """[(branch facts, expanded expression, statement)], see _guarded"""
+    ex = expander(repo)
+    out = []
+    for c, v, st, pre in _guarded(repo, fi, e, at, conds, 0, False):
+        out.append((c, v if pre else ex.norm_expr(v, fi, st), st))
+    return out
+
+
+def xt(x: ast.AST) -> str:
+    """canonical text of an already expanded expression"""
+    return ast.unparse(norm.canon(x, rename=False))
+
+
+def _guarded(repo, fi: FunctionInfo, e: ast.AST, at: ast.AST, conds=frozenset(), depth: int = 0, pre: bool = False):
     """[(branch facts, expression, statement)] for an expression whose value is
     chosen by conditional expressions or by assignments in different branches:
-    `v = a if c else b`, `if c: v = a  else: v = b`, `if c: v, w = a, b ...`.
-    The facts are canonical path conditions (engine.guards)."""
+    `v = a if c else b`, `if c: v = a  else: v = b`, `if c: v, w = a, b ...`,
+    `v, w = helper(...)` (helper inlined).  The facts are canonical path
+    conditions (engine.guards).  pre=True: `e` is already expanded."""
     ex = expander(repo)
     if depth > 5:
-        return [(conds, e, at)]
+        return [(conds, e, at, pre)]
     if isinstance(e, ast.IfExp):
-        t = ex.norm_expr(e.test, fi, at)
-        return guarded_values(repo, fi, e.body, at, conds | frozenset(atoms(t, True)), depth + 1) + guarded_values(repo, fi, e.orelse, at, conds | frozenset(atoms(t, False)), depth + 1)
+        t = e.test if pre else ex.norm_expr(e.test, fi, at)
+        return _guarded(repo, fi, e.body, at, conds | frozenset(atoms(t, True)), depth + 1, pre) + _guarded(repo, fi, e.orelse, at, conds | frozenset(atoms(t, False)), depth + 1, pre)
+    if pre:
+        return [(conds, e, at, pre)]
     if isinstance(e, ast.Name) and isinstance(e.ctx, ast.Load):
         rd = ex.rd(fi)
         node = rd.node_of(at)
         if node is not None:
             ids = rd.reaching(e.id, node)
             dns = [rd.node_by_id[i] for i in ids if i >= 0]
-            vals = []
-            ok = bool(dns) and len(dns) == len(ids)
-            for d in dns:
-                v = _assigned_value(d, e.id) if ok else None
-                if v is None:
-                    ok = False
-                    break
-                vals.append((d, v))
-            if ok:
+            # in-place updates of the object are not alternatives for the binding
+            dns = [d for d in dns if d.kind == "stmt" and isinstance(d.ast, (ast.Assign, ast.AnnAssign)) and _binds(d.ast, e.id)]
+            if dns and -1 not in ids:
                 out = []
-                for d, v in vals:
-                    c = conds_at(repo, fi, d.ast) if len(vals) > 1 else frozenset()
-                    out += guarded_values(repo, fi, v, d.ast, conds | c, depth + 1)
+                for d in dns:
+                    c = conds_at(repo, fi, d.ast) if len(dns) > 1 else frozenset()
+                    v = _assigned_value(d, e.id)
+                    if v is not None:
+                        out += _guarded(repo, fi, v, d.ast, conds | c, depth + 1)
+                    else:
+                        r = ex._name_def(ast.Name(id=e.id, ctx=ast.Load()), d.ast, d, fi, {}, 0, set())
+                        if r is None:
+                            out.append((conds | c, e, at, False))
+                        else:
+                            if ex.post is not None:
+                                r = ex.post(r)
+                            out += _guarded(repo, fi, r, d.ast, conds | c, depth + 1, True)
                 return out
-    return [(conds, e, at)]
+    return [(conds, e, at, pre)]
+
+
+def _binds(st: ast.AST, name: str) -> bool:
+    tgts = st.targets if isinstance(st, ast.Assign) else [st.target]
+    for t in tgts:
+        elts = t.elts if isinstance(t, (ast.Tuple, ast.List)) else [t]
+        if any(isinstance(x, ast.Name) and x.id == name for x in elts):
+            return True
+    return False
+
+
+def gather_alternatives(repo, fi: FunctionInfo, e: ast.AST, at: ast.AST):
+    """how the rows of an argument are selected, on every branch:
+    {(branch facts, base text, row-index text, {(leaf name, its reaching definitions)})}
+    for values of the form BASE[ROWS] / BASE[ROWS, :]; alternatives that are the
+    constant None (optional weights) are dropped together with the `is None`
+    facts that select them."""
+    ex = expander(repo)
+    rd = ex.rd(fi)
+    out = set()
+    for conds, x, st in guarded_values(repo, fi, e, at):
+        if isinstance(x, ast.Constant) and x.value is None:
+            continue
+        if not isinstance(x, ast.Subscript):
+            out.add((_strip_none(conds), ast.unparse(x)[:80], None, frozenset()))
+            continue
+        sl = x.slice
+        rows = sl.elts[0] if isinstance(sl, ast.Tuple) and sl.elts else sl
+        node = rd.node_of(st)
+        leaves = set()
+        for n in ast.walk(rows):
+            if isinstance(n, ast.Name) and node is not None:
+                leaves.add((n.id, tuple(rd.reaching(n.id, node))))
+        out.add((_strip_none(conds), ast.unparse(norm.canon(x.value, rename=False)), ast.unparse(norm.canon(rows, rename=False)), frozenset(leaves)))
+    return out
+
+
+def _strip_none(conds):
+    return frozenset(c for c in conds if " is None" not in c[0])
 
 
 def _assigned_value(dn, name: str) -> Optional[ast.AST]:
